@@ -53,8 +53,9 @@ Definition pgmsg_eqb (a b : pgmsg) : bool :=
   end.
 (* the bytes Go's allocator handed out during the call (runtime.MemStats.TotalAlloc) stay within a
    constant factor of the model's measure: size-class rounding, amortised append growth, small
-   bookkeeping objects (readers, result structs, harness goroutine) *)
-Definition alloc_ok (model observed : N) : bool := observed <=? 4 * model + 4096.
+   bookkeeping objects (readers, result structs, harness goroutine, an error value with its
+   captured stack: pkg/errors.New costs about 4.5 KiB) *)
+Definition alloc_ok (model observed : N) : bool := observed <=? 4 * model + 8192.
 Definition frame_eqb (a b : N * bytes * bytes) : bool :=
   let '(t, p, r) := a in let '(t', p', r') := b in (t =? t') && bytes_eqb p p' && bytes_eqb r r'.
 
